@@ -71,6 +71,14 @@ def run_property(pid, ff, ff_rel, repo, tier, seed, replay, t_extract):
     rep = Report(pid)
     try:
         mod.run(ctx, rep)
+        if facts_rel is not None:
+            # thorough: the typed program (THIR of every body, ADT layouts, constants) is identical with overflow checks and
+            # debug assertions off, so every verdict above holds for release builds as well
+            same_b = facts.raw['bodies'] == facts_rel.raw['bodies']
+            same_a = facts.raw['adts'] == facts_rel.raw['adts'] and facts.raw['consts'] == facts_rel.raw['consts']
+            rep.ob('profile-independence', 'THIR bodies dev == release-like', same_b, 'the typed program differs between the dev and the release-like configuration',
+                   detail={'bodies': len(facts.raw['bodies']), 'dev_cfg': facts.cfg, 'release_like_cfg': facts_rel.cfg})
+            rep.ob('profile-independence', 'layouts and constants dev == release-like', same_a, 'layouts or constants differ between configurations')
     except Exception as ex:
         tb = traceback.format_exc()
         sys.stderr.write(tb)
